@@ -765,3 +765,79 @@ Proof.
     + destruct (forallb _ (i0 :: items)) eqn:Efa; [|discriminate]. injection H as <-.
       apply all_S_find in Efa as [-> ->]. cbn [set_sig aug_default a_fde_enc a_lsda orb negb]. auto.
 Qed.
+
+(* ------------------------------------------------------------------ locating an entry in the section *)
+Section Locate.
+  Variables (c : scfg) (es : list entry).
+  Let sp := sp_of c.
+  Let offs := offsets sp es.
+
+  Lemma enc_entry_size : forall o e, blen (enc_entry sp es offs o e) = entry_size sp es e.
+  Proof.
+    intros o [cr|f|]; cbn [enc_entry entry_size].
+    - reflexivity.
+    - apply enc_fde_len.
+    - change blen with nlen. apply nlen_un_bytes.
+  Qed.
+
+  Lemma enc_entries_split : forall l o i e,
+    nth_error l i = Some e ->
+    exists pre post,
+      enc_entries sp es offs o l = pre ++ enc_entry sp es offs (nth i (offsets_from sp es o l) 0) e ++ post /\
+      o + nlen pre = nth i (offsets_from sp es o l) 0.
+  Proof.
+    induction l as [|x r IH]; intros o i e H; [destruct i; discriminate|].
+    destruct i as [|i].
+    - injection H as <-. exists [], (enc_entries sp es offs (o + entry_size sp es x) r).
+      cbn [offsets_from nth app]. split; [reflexivity|]. change (nlen []) with 0. lia.
+    - cbn [nth_error] in H. destruct (IH (o + entry_size sp es x) i e H) as (pre & post & H1 & H2).
+      exists (enc_entry sp es offs o x ++ pre), post. cbn [offsets_from nth]. split.
+      + cbn [enc_entries]. rewrite H1, <- app_assoc. reflexivity.
+      + rewrite nlen_app, <- H2. change (nlen (enc_entry sp es offs o x)) with (blen (enc_entry sp es offs o x)).
+        rewrite enc_entry_size. lia.
+  Qed.
+
+  Lemma enc_entries_length : forall l o, (length l <= length (enc_entries sp es offs o l))%nat.
+  Proof.
+    induction l as [|x r IH]; intros o; [cbn; lia|].
+    cbn [enc_entries]. rewrite app_length. cbn [length]. specialize (IH (o + entry_size sp es x)).
+    assert ((0 < length (enc_entry sp es offs o x))%nat).
+    { destruct x as [cr|f|]; cbn [enc_entry]; [apply enc_cie_len|apply enc_fde_len_pos|rewrite un_bytes_length; lia]. }
+    lia.
+  Qed.
+
+  (* C05 entries round trip: iterating the encoded section yields exactly the expected items *)
+  Lemma entries_all_enc : forall dbg items,
+    wf_entries c es 0 es -> exp_items c es 0 es = Some items ->
+    entries_all dbg c (enc_section sp es) = Ok (items, None).
+  Proof.
+    intros dbg items Hwf Hexp. unfold entries_all, enc_section.
+    apply entries_loop_enc; [|exact Hwf|exact Hexp].
+    pose proof (enc_entries_length es 0). fold offs. lia.
+  Qed.
+
+  (* each FDE is bound to the CIE its pointer designates, and decodes to the expected record *)
+  Lemma fde_parse_enc : forall dbg f cr o aug fd,
+    cie_at es (f_cie f) = Some cr ->
+    wf_cie c cr -> body_fits (c_fmt64 cr) (cie_body c cr) ->
+    let co := co_of c es f in
+    exp_aug c cr (cie_dpos c cr (tail_off c (c_fmt64 cr) co)) = Some aug ->
+    let ci := exp_cie c cr co (blen (cie_body c cr)) (tail_off c (c_fmt64 cr) co) aug in
+    exp_fde c cr ci f o (blen (fde_body c cr co o f)) (tail_off c (f_fmt64 f) o) = Some fd ->
+    fde_parse dbg c (enc_section sp es) (exp_pfde c es o f) = Ok fd.
+  Proof.
+    intros dbg f cr o aug fd Hat Hwc Hfit co Haug ci Hexp.
+    unfold cie_at in Hat. destruct (nth_error es (f_cie f)) as [[cr'| |]|] eqn:Hn; try discriminate.
+    injection Hat as ->.
+    destruct (enc_entries_split es 0 (f_cie f) (ECie cr) Hn) as (pre & post & Hsec & Hoff).
+    cbn [enc_entry] in Hsec. rewrite N.add_0_l in Hoff.
+    assert (Hco : co = nlen pre) by (unfold co, co_of; fold sp; fold offs; unfold offs, offsets; symmetry; exact Hoff).
+    unfold exp_pfde. unfold cr_of, cie_at. rewrite Hn. fold co. fold sp.
+    apply (fde_body_enc dbg c (enc_section sp es) cr ci).
+    - apply Hwc.
+    - unfold enc_section. fold offs. rewrite Hsec. unfold ci. rewrite Hco in *.
+      apply cie_from_offset_enc; assumption.
+    - eapply exp_cie_links. exact Haug.
+    - exact Hexp.
+  Qed.
+End Locate.
